@@ -47,6 +47,7 @@ func (c01) Gen(r *rand.Rand, tier string, run int) *core.Case {
 	c.Params["frag"] = r.IntN(3)
 	c.Params["fragseed"] = r.IntN(1 << 30)
 	c.Params["eofdata"] = r.IntN(2)
+	c.Params["reuse"] = r.IntN(2)
 	if r.IntN(5) == 0 {
 		c.Params["concurrent"] = 1
 	}
@@ -202,8 +203,15 @@ func (c01) Run(c *core.Case, env *core.Env) {
 		rd.Frag = "random"
 	}
 	pos := 0
+	var reused net.Message
 	for i, f := range want {
-		var m net.Message
+		var fresh net.Message
+		m := &fresh
+		if c.P("reuse", 0) == 1 {
+			// one Message value read into again and again: nothing of the
+			// previous message may survive in it
+			m = &reused
+		}
 		h := env.Invoke(1, "read", f.String())
 		err := m.Read(rd)
 		env.Return(h, "", err)
